@@ -456,6 +456,7 @@ type Facts struct {
 	ParallelWorkers   map[string][][]Event `json:"parallelWorkerPaths"`
 	RegistryWriters   map[string][]string `json:"registryWriters"`
 	PackageVarWriters map[string][]string `json:"packageVarWriters"`
+	PackageVarUsers   map[string][]string `json:"packageVarUsers"`
 	VarsAccess        map[string][][]Event `json:"varsAccessPaths"`
 	AsyncEvents       map[string][]string `json:"asyncEvents"`
 	NestedForwarders  []string            `json:"nestedForwarders"`
@@ -481,12 +482,8 @@ func (ex *extractor) execReader(f *Facts) {
 			continue
 		}
 		ast.Inspect(d.Body, func(n ast.Node) bool {
-			if id, ok := n.(*ast.Ident); ok && id.Name == "cache" && id.Obj != nil && id.Obj.Kind == ast.Var {
-				if _, isField := id.Obj.Decl.(*ast.Field); !isField {
-					if vs, ok := id.Obj.Decl.(*ast.ValueSpec); ok && ex.isPackageLevel(vs) {
-						acc[name] = true
-					}
-				}
+			if id, ok := n.(*ast.Ident); ok && id.Name == "cache" && ex.isPkgVarRef(id) {
+				acc[name] = true
 			}
 			return true
 		})
@@ -495,6 +492,19 @@ func (ex *extractor) execReader(f *Facts) {
 		f.CacheAccessors = append(f.CacheAccessors, k)
 	}
 	sort.Strings(f.CacheAccessors)
+}
+
+// an identifier that refers to a package-level variable: resolved to its (package-level) declaration in
+// the same file, or unresolved (declared in another file of the package); a local of the same name is
+// resolved to its local declaration and therefore excluded
+func (ex *extractor) isPkgVarRef(id *ast.Ident) bool {
+	if id.Obj == nil {
+		return true
+	}
+	if vs, ok := id.Obj.Decl.(*ast.ValueSpec); ok && ex.isPackageLevel(vs) {
+		return true
+	}
+	return false
 }
 
 func (ex *extractor) isPackageLevel(vs *ast.ValueSpec) bool {
@@ -608,13 +618,11 @@ func (ex *extractor) packageVars(f *Facts) {
 				}
 				break
 			}
-			if id, ok := root.(*ast.Ident); ok && pkgVars[id.Name] && id.Obj != nil {
-				if vs, ok := id.Obj.Decl.(*ast.ValueSpec); ok && ex.isPackageLevel(vs) {
-					if writers[id.Name] == nil {
-						writers[id.Name] = map[string]bool{}
-					}
-					writers[id.Name][name] = true
+			if id, ok := root.(*ast.Ident); ok && pkgVars[id.Name] && ex.isPkgVarRef(id) {
+				if writers[id.Name] == nil {
+					writers[id.Name] = map[string]bool{}
 				}
+				writers[id.Name][name] = true
 			}
 		}
 		ast.Inspect(d.Body, func(n ast.Node) bool {
@@ -632,6 +640,56 @@ func (ex *extractor) packageVars(f *Facts) {
 			}
 			return true
 		})
+	}
+	// every function that mentions a package-level variable at all (a shared hasher / buffer that is
+	// only *used* through method calls is shared mutable state as well)
+	users := map[string]map[string]bool{}
+	for name, d := range ex.funcs {
+		if d.Body == nil {
+			continue
+		}
+		ast.Inspect(d.Body, func(n ast.Node) bool {
+			if se, ok := n.(*ast.SelectorExpr); ok {
+				// x.f: only x can be a variable reference
+				ast.Inspect(se.X, func(m ast.Node) bool {
+					if id, ok := m.(*ast.Ident); ok && pkgVars[id.Name] && ex.isPkgVarRef(id) {
+						if users[id.Name] == nil {
+							users[id.Name] = map[string]bool{}
+						}
+						users[id.Name][name] = true
+					}
+					return true
+				})
+				return false
+			}
+			if kv, ok := n.(*ast.KeyValueExpr); ok {
+				// struct literal field names are not variable references
+				ast.Inspect(kv.Value, func(m ast.Node) bool {
+					if id, ok := m.(*ast.Ident); ok && pkgVars[id.Name] && ex.isPkgVarRef(id) {
+						if users[id.Name] == nil {
+							users[id.Name] = map[string]bool{}
+						}
+						users[id.Name][name] = true
+					}
+					return true
+				})
+				return false
+			}
+			if id, ok := n.(*ast.Ident); ok && pkgVars[id.Name] && ex.isPkgVarRef(id) {
+				if users[id.Name] == nil {
+					users[id.Name] = map[string]bool{}
+				}
+				users[id.Name][name] = true
+			}
+			return true
+		})
+	}
+	f.PackageVarUsers = map[string][]string{}
+	for v, us := range users {
+		for u := range us {
+			f.PackageVarUsers[v] = append(f.PackageVarUsers[v], u)
+		}
+		sort.Strings(f.PackageVarUsers[v])
 	}
 	f.PackageVarWriters = map[string][]string{}
 	for v, ws := range writers {
@@ -1385,6 +1443,16 @@ func main() {
 		pv = append(pv, fmt.Sprintf("(%s, %s)", strconv.Quote(k), leanStrList(f.PackageVarWriters[k])))
 	}
 	sb.WriteString("def packageVarWriters : List (String × List String) :=\n  [" + strings.Join(pv, ",\n   ") + "]\n\n")
+	var ukeys []string
+	for k := range f.PackageVarUsers {
+		ukeys = append(ukeys, k)
+	}
+	sort.Strings(ukeys)
+	var pu []string
+	for _, k := range ukeys {
+		pu = append(pu, fmt.Sprintf("(%s, %s)", strconv.Quote(k), leanStrList(f.PackageVarUsers[k])))
+	}
+	sb.WriteString("def packageVarUsers : List (String × List String) :=\n  [" + strings.Join(pu, ",\n   ") + "]\n\n")
 	for _, k := range []string{"async", "spinasync", "spin"} {
 		var evs []string
 		for _, e := range f.AsyncEvents[k] {
